@@ -333,6 +333,29 @@ class Facts:
         if data.get("unsupported"):
             raise Broken("stx met constructs outside its vocabulary: " + ", ".join(data["unsupported"][:10]))
         self.orient_loop_conditions()
+        self.drop_assertions()
+
+    def drop_assertions(self):
+        """`assert(c);` (analysed with NDEBUG undefined) is `c ? void(0) : __assert_fail(...)`: a statement with no effect on
+        any run the properties speak about.  It is removed, so that an added assertion changes nothing for the rules."""
+        def is_assert(e):
+            while isinstance(e, dict) and e.get("k") in ("cast", "paren", "conv") and e.get("e") is not None:
+                e = e["e"]
+            if not (isinstance(e, dict) and e.get("k") == "cond"):
+                return False
+            return any(x.get("k") == "call" and (x.get("callee") or {}).get("name") in ("__assert_fail", "__assert", "_wassert", "__assert_rtn") for br in (e.get("a"), e.get("b")) for x in walk(br))
+        for f in self.functions:
+            for n in walk(f.get("body")):
+                for key in ("body",):
+                    v = n.get(key)
+                    if isinstance(v, list):
+                        for k_, st in enumerate(v):
+                            if isinstance(st, dict) and st.get("k") == "expr" and is_assert(st.get("e")):
+                                v[k_] = {"k": "null", "line": st.get("line")}
+                for key in ("then", "else", "body"):
+                    st = n.get(key)
+                    if isinstance(st, dict) and st.get("k") == "expr" and is_assert(st.get("e")):
+                        n[key] = {"k": "null", "line": st.get("line")}
 
     def orient_loop_conditions(self):
         """`for (i = a; N > i; ...)` is `for (i = a; i < N; ...)`: the loop variable is put on the left of its bound test, so
